@@ -178,6 +178,7 @@ func init() {
 		reg(n, func(fr *frame, a []Value) Value { return fr.e.tb.Ite(a[0].(*Term), a[1].(*Term), a[2].(*Term)) })
 	}
 	reg("PEMLen", func(fr *frame, a []Value) Value { fr.e.path.pemLen = int(concInt(a[0])); return nil })
+	reg("EnableFaults", func(fr *frame, a []Value) Value { fr.e.path.faultsOn = true; return nil })
 	reg("Symbolic", func(fr *frame, a []Value) Value { return fr.e.tb.T })
 	reg("Begin", func(fr *frame, a []Value) Value {
 		e := fr.e
